@@ -1,7 +1,7 @@
 import Splipy.Lemmas.C11Steps
 
 /-!
-# Refinement: the executable transitions are instances of the relational contracts
+# Refinement: the executable primitive writes are instances of the in-place contract
 -/
 
 namespace Splipy.Heap
@@ -10,66 +10,51 @@ theorem set_self_of_getElem? {α} {l : List α} {i : Nat} {a : α} (h : l[i]? = 
   obtain ⟨hl, rfl⟩ := List.getElem?_eq_some_iff.mp h
   exact List.set_getElem_self hl
 
+theorem rec_owned {h : Heap} {a : Obj} {r : Nat} {rec : BasisRec} (hr : r ∈ a.bases)
+    (hrec : h.recs[r]? = some rec) : rec.knots ∈ ownBufs h a := by
+  rw [mem_ownBufs]; right; rw [mem_knotBufs]; exact ⟨r, hr, rec, hrec, rfl⟩
+
+/-- The record condition of `InPlaceStep` when the record store is unchanged. -/
+theorem recs_unchanged_cond {h : Heap} {a : Obj} (bl : Nat) :
+    ∀ r rec, h.recs[r]? = some rec → (r ∈ a.bases ∨ h.recs.length ≤ r) →
+      rec.knots ∈ ownBufs h a ∨ (h.bufs.length ≤ rec.knots ∧ rec.knots < bl) := by
+  intro r rec hrec hcase
+  rcases hcase with hr | hr
+  · exact Or.inl (rec_owned hr hrec)
+  · have := lt_of_getElem?_eq_some hrec; omega
+
 /-- Doing nothing respects the in-place contract. -/
-theorem InPlaceStep.rfl' {h : Heap} {i : Nat} {a : Obj} (w : WF h) (ha : h.objs[i]? = some a) :
+theorem InPlaceStep.rfl' {h : Heap} {i : Nat} {a : Obj} (ha : h.objs[i]? = some a) :
     InPlaceStep h h i :=
   ⟨a, a, ha, (set_self_of_getElem? ha).symm, Nat.le_refl _, Nat.le_refl _, fun _ _ _ => rfl,
-    fun _ _ _ => rfl, fun _ hr => Or.inl hr, fun _ hx => Or.inl hx, w⟩
-
-/-- `WF` after replacing object `i` and extending/overwriting the stores. -/
-theorem wf_update {h h' : Heap} {i : Nat} {a' : Obj} (w : WF h)
-    (hobjs : h'.objs = h.objs.set i a')
-    (hbl : h.bufs.length ≤ h'.bufs.length) (hrl : h.recs.length ≤ h'.recs.length)
-    (hcps : a'.cps < h'.bufs.length) (hbases : ∀ b ∈ a'.bases, b < h'.recs.length)
-    (hknots : ∀ r ∈ h'.recs, r.knots < h'.bufs.length) : WF h' := by
-  refine ⟨?_, ?_, hknots⟩
-  · intro o ho
-    rw [hobjs] at ho
-    rcases List.mem_or_eq_of_mem_set ho with ho | rfl
-    · have := w.cps_lt o ho; omega
-    · exact hcps
-  · intro o ho b hb
-    rw [hobjs] at ho
-    rcases List.mem_or_eq_of_mem_set ho with ho | rfl
-    · have := w.bases_lt o ho b hb; omega
-    · exact hbases b hb
+    fun _ _ _ => rfl, fun _ hr => Or.inl hr, Or.inl (by simp [ownBufs]), recs_unchanged_cond _⟩
 
 /-- Overwriting the contents of a buffer owned by the receiver. -/
-theorem inPlace_writeBuf {h : Heap} {i : Nat} {a : Obj} (w : WF h) (ha : h.objs[i]? = some a)
+theorem inPlace_writeBuf {h : Heap} {i : Nat} {a : Obj} (ha : h.objs[i]? = some a)
     {x : Nat} (hx : x ∈ ownBufs h a) (d : List Int) :
     InPlaceStep h { h with bufs := h.bufs.set x d } i := by
-  have ham : a ∈ h.objs := List.mem_of_getElem? ha
   refine ⟨a, a, ha, (set_self_of_getElem? ha).symm, by simp, Nat.le_refl _, ?_, fun _ _ _ => rfl,
-    fun _ hr => Or.inl hr, fun y hy => Or.inl hy, ?_⟩
-  · intro y _ hy
-    have : x ≠ y := fun e => hy (e ▸ hx)
-    simp [List.getElem?_set_ne this]
-  · exact ⟨fun o ho => by simpa using w.cps_lt o ho, w.bases_lt, fun r hr => by simpa using w.knots_lt r hr⟩
+    fun _ hr => Or.inl hr, Or.inl (by simp [ownBufs]),
+    fun r rec hrec hc => recs_unchanged_cond (h := h) (a := a) _ r rec hrec hc⟩
+  intro y _ hy
+  have : x ≠ y := fun e => hy (e ▸ hx)
+  simp [List.getElem?_set_ne this]
 
-theorem inPlace_rebindCps {h : Heap} {i : Nat} {a : Obj} (w : WF h) (ha : h.objs[i]? = some a)
-    (d : List Int) :
+theorem inPlace_rebindCps {h : Heap} {i : Nat} {a : Obj} (ha : h.objs[i]? = some a) (d : List Int) :
     InPlaceStep h { h with bufs := h.bufs ++ [d], objs := h.objs.set i { a with cps := h.bufs.length } } i := by
-  have ham : a ∈ h.objs := List.mem_of_getElem? ha
   refine ⟨a, { a with cps := h.bufs.length }, ha, rfl, by simp, Nat.le_refl _, ?_, fun _ _ _ => rfl,
-    fun _ hr => Or.inl hr, ?_, ?_⟩
-  · intro y hy _
-    simp [List.getElem?_append_left hy]
-  · intro y hy
-    rw [mem_ownBufs] at hy
-    rcases hy with rfl | hy
-    · right; exact Nat.le_refl _
-    · left; rw [mem_ownBufs]; right; exact hy
-  · refine wf_update w rfl (by simp) (Nat.le_refl _) ?_ ?_ ?_
-    · simp
-    · exact w.bases_lt a ham
-    · intro r hr; have := w.knots_lt r hr; simp; omega
+    fun _ hr => Or.inl hr, Or.inr ⟨Nat.le_refl _, by simp⟩,
+    fun r rec hrec hc => recs_unchanged_cond (h := h) (a := a) _ r rec hrec hc⟩
+  intro y hy _
+  simp [List.getElem?_append_left hy]
 
 theorem inPlace_rebindBasis {h : Heap} {i : Nat} {a : Obj} (w : WF h) (ha : h.objs[i]? = some a)
     (k ord : Nat) (per : Int) (d : List Int) :
     InPlaceStep h { bufs := h.bufs ++ [d], recs := h.recs ++ [⟨h.bufs.length, ord, per⟩],
                     objs := h.objs.set i { a with bases := a.bases.set k h.recs.length } } i := by
   have ham : a ∈ h.objs := List.mem_of_getElem? ha
-  refine ⟨a, { a with bases := a.bases.set k h.recs.length }, ha, rfl, by simp, by simp, ?_, ?_, ?_, ?_, ?_⟩
+  refine ⟨a, { a with bases := a.bases.set k h.recs.length }, ha, rfl, by simp, by simp, ?_, ?_, ?_,
+    Or.inl (by simp [ownBufs]), ?_⟩
   · intro y hy _
     simp [List.getElem?_append_left hy]
   · intro r hr _
@@ -77,156 +62,118 @@ theorem inPlace_rebindBasis {h : Heap} {i : Nat} {a : Obj} (w : WF h) (ha : h.ob
   · intro r hr
     rcases List.mem_or_eq_of_mem_set hr with hr | rfl
     · exact Or.inl hr
-    · exact Or.inr (Nat.le_refl _)
-  · intro y hy
-    rw [mem_ownBufs] at hy
-    rcases hy with rfl | hy
-    · left; simp [ownBufs]
-    · rw [mem_knotBufs] at hy
-      obtain ⟨b, hb, r, hr, rfl⟩ := hy
-      rcases List.mem_or_eq_of_mem_set hb with hb | rfl
-      · left
-        have hlt := w.bases_lt a ham b hb
-        simp only [List.getElem?_append_left hlt] at hr
-        rw [mem_ownBufs]; right; rw [mem_knotBufs]; exact ⟨b, hb, r, hr, rfl⟩
-      · right
-        simp at hr
-        subst hr; exact Nat.le_refl _
-  · refine wf_update w rfl (by simp) (by simp) ?_ ?_ ?_
-    · have := w.cps_lt a ham; simp; omega
-    · intro b hb
-      rcases List.mem_or_eq_of_mem_set hb with hb | rfl
-      · have := w.bases_lt a ham b hb; simp; omega
-      · simp
-    · intro r hr
-      simp only [List.mem_append, List.mem_singleton] at hr
-      rcases hr with hr | rfl
-      · have := w.knots_lt r hr; simp; omega
-      · simp
+    · exact Or.inr ⟨Nat.le_refl _, by simp⟩
+  · intro r rec hrec hcase
+    rcases hcase with hr | hr
+    · left
+      have hlt := w.bases_lt a ham r hr
+      simp only [List.getElem?_append_left hlt] at hrec
+      exact rec_owned hr hrec
+    · right
+      simp only [List.getElem?_append_right hr] at hrec
+      have h0 : r - h.recs.length = 0 := by
+        have := lt_of_getElem?_eq_some hrec; simp at this; omega
+      rw [h0] at hrec
+      simp at hrec
+      subst hrec
+      exact ⟨Nat.le_refl _, by simp⟩
 
-theorem inPlace_setRec {h : Heap} {i : Nat} {a : Obj} (w : WF h) (ha : h.objs[i]? = some a)
+theorem inPlace_setRec {h : Heap} {i : Nat} {a : Obj} (ha : h.objs[i]? = some a)
     {b : Nat} (hb : b ∈ a.bases) {r : BasisRec} (hr : h.recs[b]? = some r) (ord : Nat) (per : Int) :
     InPlaceStep h { h with recs := h.recs.set b { r with order := ord, periodic := per } } i := by
-  have ham : a ∈ h.objs := List.mem_of_getElem? ha
   have hblt : b < h.recs.length := lt_of_getElem?_eq_some hr
-  have hk : ∀ c : Nat, ((h.recs.set b { r with order := ord, periodic := per })[c]?).map (fun x : BasisRec => x.knots)
-      = (h.recs[c]?).map (fun x : BasisRec => x.knots) := by
-    intro c
-    by_cases hc : b = c
-    · subst hc; rw [List.getElem?_set_self hblt, hr]; rfl
-    · rw [List.getElem?_set_ne hc]
   refine ⟨a, a, ha, (set_self_of_getElem? ha).symm, Nat.le_refl _, by simp, fun _ _ _ => rfl, ?_,
-    fun _ hr => Or.inl hr, ?_, ?_⟩
+    fun _ hr => Or.inl hr, Or.inl (by simp [ownBufs]), ?_⟩
   · intro c _ hc
     have : b ≠ c := fun e => hc (e ▸ hb)
     simp [List.getElem?_set_ne this]
-  · intro y hy
+  · intro c rec hrec hcase
     left
-    have : ownBufs { h with recs := h.recs.set b { r with order := ord, periodic := per } } a = ownBufs h a :=
-      ownBufs_congr (fun c _ => hk c)
-    rw [← this]; exact hy
-  · refine ⟨w.cps_lt, fun o ho c hc => by simpa using w.bases_lt o ho c hc, ?_⟩
-    intro r' hr'
-    rcases List.mem_or_eq_of_mem_set hr' with hr' | rfl
-    · exact w.knots_lt r' hr'
-    · exact w.knots_lt r (List.mem_of_getElem? hr)
+    by_cases hbc : b = c
+    · subst hbc
+      simp only [List.getElem?_set_self hblt] at hrec
+      cases hrec
+      exact (rec_owned hb hr : r.knots ∈ ownBufs h a)
+    · simp only [List.getElem?_set_ne hbc] at hrec
+      rcases hcase with hc | hc
+      · exact rec_owned hc hrec
+      · have := lt_of_getElem?_eq_some hrec; omega
 
-theorem inPlace_setRecKnots {h : Heap} {i : Nat} {a : Obj} (w : WF h) (ha : h.objs[i]? = some a)
+theorem inPlace_setRecKnots {h : Heap} {i : Nat} {a : Obj} (ha : h.objs[i]? = some a)
     {b : Nat} (hb : b ∈ a.bases) (hblt : b < h.recs.length) (ord : Nat) (per : Int) (d : List Int) :
     InPlaceStep h { h with bufs := h.bufs ++ [d], recs := h.recs.set b ⟨h.bufs.length, ord, per⟩ } i := by
-  have ham : a ∈ h.objs := List.mem_of_getElem? ha
-  refine ⟨a, a, ha, (set_self_of_getElem? ha).symm, by simp, by simp, ?_, ?_, fun _ hr => Or.inl hr, ?_, ?_⟩
+  refine ⟨a, a, ha, (set_self_of_getElem? ha).symm, by simp, by simp, ?_, ?_, fun _ hr => Or.inl hr,
+    Or.inl (by simp [ownBufs]), ?_⟩
   · intro y hy _
     simp [List.getElem?_append_left hy]
   · intro c _ hc
     have : b ≠ c := fun e => hc (e ▸ hb)
     simp [List.getElem?_set_ne this]
-  · intro y hy
-    rw [mem_ownBufs] at hy
-    rcases hy with rfl | hy
-    · left; simp [ownBufs]
-    · rw [mem_knotBufs] at hy
-      obtain ⟨c, hc, r, hr, rfl⟩ := hy
-      by_cases hbc : b = c
-      · subst hbc
-        simp only [List.getElem?_set_self hblt] at hr
-        cases hr
-        right; exact Nat.le_refl _
-      · simp only [List.getElem?_set_ne hbc] at hr
-        left; rw [mem_ownBufs]; right; rw [mem_knotBufs]; exact ⟨c, hc, r, hr, rfl⟩
-  · refine ⟨fun o ho => ?_, fun o ho c hc => by simpa using w.bases_lt o ho c hc, ?_⟩
-    · have := w.cps_lt o ho; simp; omega
-    · intro r' hr'
-      rcases List.mem_or_eq_of_mem_set hr' with hr' | rfl
-      · have := w.knots_lt r' hr'; simp; omega
-      · simp
+  · intro c rec hrec hcase
+    by_cases hbc : b = c
+    · subst hbc
+      simp only [List.getElem?_set_self hblt] at hrec
+      cases hrec
+      exact Or.inr ⟨Nat.le_refl _, by simp⟩
+    · simp only [List.getElem?_set_ne hbc] at hrec
+      left
+      rcases hcase with hc | hc
+      · exact rec_owned hc hrec
+      · have := lt_of_getElem?_eq_some hrec; omega
 
 /-- Rebinding the receiver's own fields to things it already owns (permutation of its bases,
     scalar fields). -/
-theorem inPlace_rebindOwn {h : Heap} {i : Nat} {a : Obj} (w : WF h) (ha : h.objs[i]? = some a)
+theorem inPlace_rebindOwn {h : Heap} {i : Nat} {a : Obj} (ha : h.objs[i]? = some a)
     (bases' : List Nat) (hsub : ∀ b ∈ bases', b ∈ a.bases) (dim : Nat) (rat : Bool) :
-    InPlaceStep h { h with objs := h.objs.set i { a with bases := bases', dimension := dim, rational := rat } } i := by
-  have ham : a ∈ h.objs := List.mem_of_getElem? ha
-  refine ⟨a, { a with bases := bases', dimension := dim, rational := rat }, ha, rfl, Nat.le_refl _,
-    Nat.le_refl _, fun _ _ _ => rfl, fun _ _ _ => rfl, fun r hr => Or.inl (hsub r hr), ?_, ?_⟩
-  · intro y hy
-    left
-    rw [mem_ownBufs] at hy ⊢
-    rcases hy with rfl | hy
-    · left; rfl
-    · right
-      rw [mem_knotBufs] at hy ⊢
-      obtain ⟨c, hc, r, hr, rfl⟩ := hy
-      exact ⟨c, hsub c hc, r, hr, rfl⟩
-  · exact wf_update w rfl (Nat.le_refl _) (Nat.le_refl _) (w.cps_lt a ham)
-      (fun b hb => w.bases_lt a ham b (hsub b hb)) w.knots_lt
+    InPlaceStep h { h with objs := h.objs.set i { a with bases := bases', dimension := dim, rational := rat } } i :=
+  ⟨a, { a with bases := bases', dimension := dim, rational := rat }, ha, rfl, Nat.le_refl _,
+    Nat.le_refl _, fun _ _ _ => rfl, fun _ _ _ => rfl, fun r hr => Or.inl (hsub r hr),
+    Or.inl (by simp [ownBufs]), fun r rec hrec hc => recs_unchanged_cond (h := h) (a := a) _ r rec hrec hc⟩
 
 /-- Every primitive write through a live receiver respects the in-place contract. -/
 theorem applyPrimOn_inPlace {h : Heap} {i : Nat} {a : Obj} (w : WF h) (ha : h.objs[i]? = some a)
     (p : Prim) : InPlaceStep h (applyPrimOn h i a p) i := by
   cases p with
-  | writeCps d => exact inPlace_writeBuf w ha (by simp [ownBufs]) d
-  | rebindCps d => exact inPlace_rebindCps w ha d
+  | writeCps d => exact inPlace_writeBuf ha (by simp [ownBufs]) d
+  | rebindCps d => exact inPlace_rebindCps ha d
   | writeKnots k d =>
     simp only [applyPrimOn]
     split
-    · exact InPlaceStep.rfl' w ha
+    · exact InPlaceStep.rfl' ha
     · rename_i b hk
       split
-      · exact InPlaceStep.rfl' w ha
+      · exact InPlaceStep.rfl' ha
       · rename_i r hr
-        refine inPlace_writeBuf w ha ?_ d
-        rw [mem_ownBufs]; right; rw [mem_knotBufs]
-        exact ⟨b, List.mem_of_getElem? hk, r, hr, rfl⟩
+        exact inPlace_writeBuf ha (rec_owned (List.mem_of_getElem? hk) hr) d
   | rebindBasis k ord per d =>
     simp only [applyPrimOn]
     split
     · exact inPlace_rebindBasis w ha k ord per d
-    · exact InPlaceStep.rfl' w ha
+    · exact InPlaceStep.rfl' ha
   | setRec k ord per kn =>
     simp only [applyPrimOn]
     split
-    · exact InPlaceStep.rfl' w ha
+    · exact InPlaceStep.rfl' ha
     · rename_i b hk
       split
-      · exact InPlaceStep.rfl' w ha
+      · exact InPlaceStep.rfl' ha
       · rename_i r hr
         split
-        · exact inPlace_setRec w ha (List.mem_of_getElem? hk) hr ord per
-        · exact inPlace_setRecKnots w ha (List.mem_of_getElem? hk) (lt_of_getElem?_eq_some hr) ord per _
+        · exact inPlace_setRec ha (List.mem_of_getElem? hk) hr ord per
+        · exact inPlace_setRecKnots ha (List.mem_of_getElem? hk) (lt_of_getElem?_eq_some hr) ord per _
   | swapBases k l =>
     simp only [applyPrimOn]
     split
     · rename_i x y hk hl
-      refine inPlace_rebindOwn w ha ((a.bases.set k y).set l x) ?_ a.dimension a.rational
+      refine inPlace_rebindOwn ha ((a.bases.set k y).set l x) ?_ a.dimension a.rational
       intro b hb
       rcases List.mem_or_eq_of_mem_set hb with hb | rfl
       · rcases List.mem_or_eq_of_mem_set hb with hb | rfl
         · exact hb
         · exact List.mem_of_getElem? hl
       · exact List.mem_of_getElem? hk
-    · exact InPlaceStep.rfl' w ha
-  | setScalars d r => exact inPlace_rebindOwn w ha a.bases (fun _ hb => hb) d r
+    · exact InPlaceStep.rfl' ha
+  | setScalars d r => exact inPlace_rebindOwn ha a.bases (fun _ hb => hb) d r
 
 theorem applyPrim_inPlace {h : Heap} {i : Nat} {a : Obj} (w : WF h) (ha : h.objs[i]? = some a)
     (p : Prim) : InPlaceStep h (applyPrim h i p) i := by
